@@ -202,3 +202,112 @@ func ownerFieldBase(fa *ssa.FieldAddr) (ssa.Value, string, string) {
 
 func faType(fa *ssa.FieldAddr) string { _, t, _ := ownerFieldBase(fa); return t }
 func faName(fa *ssa.FieldAddr) string { _, _, n := ownerFieldBase(fa); return n }
+
+// Parameter order. The rules name the plain parameters of a function by position ("arg#2") and read call arguments
+// by position. Unexported functions are free to reorder their parameters (all call sites change with them), so
+// positions always mean the positions on the reference tree (head_params.txt: function, index, name, type,
+// generated with `-dump headparams`): when an unexported function has the reference tree's parameters in another
+// order - the same types, each matched by its type where that is unambiguous and by type and name otherwise -
+// paramIndex, paramAt and callArgs translate to the reference order. Anything else (a parameter added, removed or
+// retyped) is left as it is and the rules that look at the function see the difference.
+//
+//go:embed head_params.txt
+var headParamsTxt string
+
+type headParam struct{ name, typ string }
+
+// paramPerm: function -> for every reference index the current index (nil: same order)
+var paramPerm = map[*ssa.Function][]int{}
+
+func reorderable(f *ssa.Function) bool {
+	return f != nil && f.Parent() == nil && f.Synthetic == "" && f.Object() != nil && !f.Object().Exported() && f.Blocks != nil && inModuleFn(f)
+}
+
+func dumpHeadParams(P *Program) {
+	var lines []string
+	for _, f := range P.AllFuncs {
+		if !reorderable(f) || len(f.Params) < 2 {
+			continue
+		}
+		for i, p := range f.Params {
+			lines = append(lines, fmt.Sprintf("%s\t%d\t%s\t%s", FuncKey(f), i, p.Name(), typeStr(p.Type())))
+		}
+	}
+	sort.Strings(lines)
+	for _, l := range lines {
+		fmt.Println(l)
+	}
+}
+
+func computeParamPerms(P *Program) {
+	paramPerm = map[*ssa.Function][]int{}
+	head := map[string][]headParam{}
+	for _, ln := range strings.Split(headParamsTxt, "\n") {
+		p := strings.Split(ln, "\t")
+		if len(p) != 4 || strings.HasPrefix(ln, "#") {
+			continue
+		}
+		var idx int
+		fmt.Sscanf(p[1], "%d", &idx)
+		for len(head[p[0]]) <= idx {
+			head[p[0]] = append(head[p[0]], headParam{})
+		}
+		head[p[0]][idx] = headParam{p[2], p[3]}
+	}
+	for _, f := range P.AllFuncs {
+		if !reorderable(f) {
+			continue
+		}
+		h := head[FuncKey(f)]
+		if len(h) == 0 || len(h) != len(f.Params) {
+			continue
+		}
+		same := true
+		for i, p := range f.Params {
+			if typeStr(p.Type()) != h[i].typ {
+				same = false
+			}
+		}
+		if same {
+			continue
+		}
+		perm := make([]int, len(h))
+		used := map[int]bool{}
+		ok := true
+		for i := range h {
+			var cands []int
+			for j, p := range f.Params {
+				if !used[j] && typeStr(p.Type()) == h[i].typ {
+					cands = append(cands, j)
+				}
+			}
+			pick := -1
+			if len(cands) == 1 {
+				pick = cands[0]
+			} else {
+				for _, j := range cands {
+					if f.Params[j].Name() == h[i].name {
+						pick = j
+					}
+				}
+			}
+			if pick < 0 {
+				ok = false
+				break
+			}
+			used[pick] = true
+			perm[i] = pick
+		}
+		if ok {
+			paramPerm[f] = perm
+		}
+	}
+}
+
+// paramAt: the parameter that stands at position k on the reference tree.
+func paramAt(f *ssa.Function, k int) *ssa.Parameter {
+	if perm := paramPerm[f]; perm != nil && k < len(perm) {
+		return f.Params[perm[k]]
+	}
+	return f.Params[k]
+}
